@@ -24,14 +24,26 @@
                                                  (`idcStarO` = the model with its own exhaustion observable,
                                                  `idcstar_model_is_idcStarO`); `idcstar_bound_suffices`: the model's bound is enough
     * `idcstar_division_modelled`                ID* never returns a Fraction: the modelled division covers every case
+    * `idcstar_sound_fragment`                   SOUNDNESS ON A NAMED FRAGMENT (`InFragmentC`, decidable: `inFragmentCB`): observational
+                                                 conditional queries P(y | x) — factual variables of the graph, unstarred values, no
+                                                 name on both sides — on which rule 2 applies to no condition and the joint ID*
+                                                 estimand marginalises nothing.  There the returned expression EQUALS
+                                                 P(outcomes ∧ conditions) / P(conditions) in every compatible functional SCM
+                                                 (via `idstar_sound_fragment`, the repaired `conditional`, marginalisation)
     * vocabulary (C06 part) `idcstar_vocab`      every leaf of a returned estimand is a single-world term
 
-  -- OPEN (stated in full, NOT proved; the first is FALSE on the current tree — see the C08 entries of known_findings.jsonl):
+  -- OPEN (stated in full, NOT proved outside the fragment; the first is FALSE on the current tree outside it — see the C08
+  -- entries of known_findings.jsonl):
   --   theorem idcstar_sound : idcStar ordf dordf kordf G outs conds = .ok e → e ≠ .zero → M.Compatible G →
   --       EventWF M (outs ++ conds) → ν.Distinct → 0 < probEvent M ν conds →
   --       den M ν (outs ++ conds) e = probEvent M ν (outs ++ conds) / probEvent M ν conds
   --     planned reduction (DESIGN §4 C08): `conditional_den_spec_observational` (C13; F11 is repaired for subscripts, the bound-range part is open) + `idstar_sound` (C07; false today: F10)
   --     + soundness of the exchange step (rule 2 of the do-calculus on the counterfactual graph, via d-separation C04).
+  --     Proved for the no-exchange observational fragment (`idcstar_sound_fragment`).  The next step — one factual condition X
+  --     exchanged for do(x) with every outcome a descendant of X — needs rule 2 for functional SCMs
+  --     (P(y | x) = P(y_x) when Y ⫫ X in G with the edges leaving X removed); `rule2_sound` (Props/C03) proves it for positive
+  --     kernel SCMs, the transfer through Lemmas/FscmToScm needs positive push-forward kernels, which the quantifier of C08
+  --     ("every compatible SCM in which the conditions have positive probability") does not grant.
   --   theorem idcstar_zero_sound : idcStar … = .ok .zero → … → probEvent M ν (outs ++ conds) = 0
   --     proved for Zero from line 3 (`idcstar_zero_line3_sound`) and for Zero coming from ID*'s lines 2 and 5 (C07); Zero from
   --     deeper inside ID* is open (false today: F10/M5).
